@@ -217,7 +217,7 @@ def compute_combined_features(
         combined_feature = input_dataframe[new_combination[0]].astype(str)
         for feature in new_combination[1:]:
             combined_feature += input_dataframe[feature].astype(str)
-        combined_feature = combined_feature.apply(lambda x: xxhash.xxh64(x).hexdigest())
+        combined_feature = combined_feature.apply(lambda x: xxhash.xxh64(x.encode('utf-8')).hexdigest())
         ftr_name = join_string.join(new_combination)
         return ftr_name, combined_feature
 
